@@ -25,6 +25,8 @@ import re
 
 COMPONENTS = ("broker", "orchestrator", "state_backend", "trigger", "client_data_store", "runner",
               "arg_cache", "serializer")
+# a bare local name that denotes the component itself (`runner` is commonly a loop variable over runner records)
+ROOT_COMPONENTS = ("broker", "orchestrator", "state_backend", "trigger", "client_data_store")
 HTTP_METHODS = ("get", "post", "put", "delete", "patch", "head", "options")
 
 # ---------------------------------------------------------------------------------------------------
@@ -372,7 +374,7 @@ class Analysis:
                 edges.add((tm.name, ch[1]))
         # component somewhere in the chain
         for i, seg in enumerate(ch):
-            if seg in COMPONENTS:
+            if seg in COMPONENTS and (i > 0 or seg in ROOT_COMPONENTS):
                 if i + 1 < len(ch):
                     c = self.classify(seg, ch[i + 1], mn, fn)
                     if c == "AUnknown":
@@ -567,10 +569,10 @@ def model_constructors() -> set[str]:
 def emit(routes: list[dict], qv: str) -> str:
     lines = ["(* GENERATED by harness/translate/routes.py from pynmon/app.py, pynmon/views/*.py, pynmon/util/**.",
              "   Do not edit: rewritten on every check run. *)",
-             "From Coq Require Import List String Bool.",
+             "From Coq Require Import String List Bool.",
              "Import ListNotations.",
              "From PV Require Import Model.Monitor.",
-             "Open Scope string_scope.",
+             "Local Open Scope string_scope.",
              ""]
     for name, sel in (("gen_routes", lambda r: r["method"] == "GET"), ("gen_post_routes", lambda r: r["method"] != "GET")):
         lines.append(f"Definition {name} : list route := [")
